@@ -202,13 +202,20 @@ def make_ext_modules(I):
 
     def exists(I, p):
         return fs_query(I, 'exists', p)
+    def os_remove(I, p):
+        I.ctx.event('fs', op='remove', path=p)
+        gd = I.ctx.ghost.get('$dict')
+        if gd is not None and 'files' in gd.d and isinstance(p, str) and p in gd.d['files'].d:
+            fsd = gd.d['files']
+            I.write(fsd, f'item {p!r}', key=p)
+            del fsd.d[p]
     ospath = M('os.path', lexists=F('os.path.lexists', lexists), exists=F('os.path.exists', exists),
                join=F('os.path.join', lambda I, *a: os.path.join(*a)),
                splitext=F('os.path.splitext', lambda I, p: os.path.splitext(p) if isinstance(p, str) else _unsup('splitext of symbolic path')),
                basename=F('os.path.basename', lambda I, p: os.path.basename(p)),
                isfile=F('os.path.isfile', lambda I, p: fs_query(I, 'exists', p)))
-    M('os', path=ospath, fspath=F('os.fspath', lambda I, p: p),
-      remove=F('os.remove', lambda I, p: I.ctx.event('fs', op='remove', path=p)))
+    M('os', path=ospath, PathLike=VClass('PathLike', [obj], {}, builtin=True), fspath=F('os.fspath', lambda I, p: p),
+      remove=F('os.remove', os_remove))
 
     # ---- re: only what a contract models explicitly; otherwise unsupported (bounded stand-in takes over)
     from . import m_re
@@ -222,7 +229,7 @@ def make_ext_modules(I):
                         ('astropy.utils.exceptions', 'astropy_misc.py'), ('astropy.utils', 'astropy_utils.py'),
                         ('astropy.utils.data', 'astropy_data.py'),
                         ('astropy.io.fits.util', 'fits_util.py'), ('astropy.io.fits', 'fits_model.py'), ('astropy.io', 'astropy_io.py'),
-                        ('astropy.table', 'table_model.py'), ('astropy', 'astropy_top.py'),
+                        ('astropy.table', 'table_model.py'), ('astropy.wcs.utils', 'wcs_utils.py'), ('astropy.wcs', 'wcs_model.py'), ('astropy', 'astropy_top.py'),
                         ('matplotlib.patches', 'mpl_patches.py'), ('matplotlib.lines', 'mpl_lines.py'),
                         ('matplotlib.text', 'mpl_text.py'), ('matplotlib.path', 'mpl_path.py'),
                         ('matplotlib', 'mpl_top.py'), ('matplotlib.pyplot', 'mpl_pyplot.py'),
@@ -241,16 +248,23 @@ def _unsup(msg):
     raise Unsupported(msg)
 
 
-def fs_query(I, what, path):
+def fs_query(I, what, path, initial=False):
     """ghost file system: path -> exists? (symbolic, stable within a path); files created through the model exist"""
     gd = I.ctx.ghost.get('$dict')
-    if gd is not None and 'files' in gd.d and isinstance(path, str):
+    if not initial and gd is not None and 'files' in gd.d and isinstance(path, str):
         fsd = gd.d['files']
         if path in fsd.d:
             return True
     g = I.ctx.ghost.setdefault('fs', {})
-    key = (what, path if isinstance(path, str) else id(path))
+    pk = path if isinstance(path, str) else id(path)
+    key = (what, pk)
     if key not in g:
         g[key] = I.ctx.fresh(f'fs_{what}', 'bool')
-        I.ctx.event('fs', op=what, path=path, result=g[key])
+        # a name that resolves to a file is present in its directory; the converse fails for a dangling symbolic link
+        other = ('lexists' if what == 'exists' else 'exists', pk)
+        if other in g:
+            ex, lex = (g[key], g[other]) if what == 'exists' else (g[other], g[key])
+            I.ctx.fact(z3.Implies(ex.e, lex.e))
+        if not initial:
+            I.ctx.event('fs', op=what, path=path, result=g[key])
     return g[key]
